@@ -667,17 +667,25 @@ package semver
 // the fill value is the marker itself. (Stated for exactly three numbers, which
 // keeps the conditions free of quantifiers.)
 //@ pred noMarker(v *Version, marker value) = 1 <= len(v.num) && len(v.num) <= 3 && v.getNum(0) != marker && v.getNum(1) != marker && v.getNum(2) != marker
+//@ pred allMarker(v *Version, m value) = 1 <= len(v.num) && len(v.num) <= 3 && forall(k, 0, len(v.num), v.num[k] == m)
 //@ pred tailClosed(v *Version, m value) = len(v.num) == 3 && imp(v.num[0] == m, v.num[1] == m) && imp(v.num[1] == m, v.num[2] == m)
 //@ func (*Version).setTail
 //@   requires v != nil
 //@   ensures imp(old(noMarker(v, marker)), touches())
 //@   ensures imp(old(marker == fill) && old(tailClosed(v, marker)), touches())
+//@   ensures imp(old(marker == fill) && old(allMarker(v, marker)), touches(&v.num, v.num, &v.buf))
+//@   ensures imp(old(marker == fill) && old(allMarker(v, marker)), len(v.num) == 3 && v.num[0] == fill && v.num[1] == fill && v.num[2] == fill &&
+//@           imp(old(backed(v.num, &v.buf)), backed(v.num, &v.buf)))
 //@   loop 0
 //@     invariant 0 <= i && forall(k, 0, i, v.getNum(k) != marker)
 //@   loop 1
 //@     invariant imp(old(noMarker(v, marker)), i >= n && touches())
 //@     invariant imp(old(marker == fill) && old(tailClosed(v, marker)),
 //@               touches() && n == len(v.num) && 0 <= i && (i >= n || v.num[i] == marker))
+//@     invariant imp(old(marker == fill) && old(allMarker(v, marker)),
+//@               touches(&v.num, old(v.num), &v.buf) && (samearr(v.num, old(v.num)) || fresh(v.num) || backed(v.num, &v.buf)) &&
+//@               n == 3 && 0 <= i && i <= 3 && 1 <= len(v.num) && len(v.num) <= 3 && i <= len(v.num) && imp(i == 3, len(v.num) == 3) && imp(i > 0, len(v.num) >= i) &&
+//@               forall(k, 0, len(v.num), v.num[k] == marker) && imp(old(backed(v.num, &v.buf)), backed(v.num, &v.buf)))
 //@   property C03
 
 // Canon builds a string; it is assumed (not verified: interface dispatch into the
@@ -708,6 +716,7 @@ package semver
 //@   property C03
 
 // Three numbers, none of them a wildcard or ∞.
+//@ pred okNums2(v *Version) = len(v.num) == 2 && 0 <= v.num[0] && v.num[0] < infinity && 0 <= v.num[1] && v.num[1] < infinity
 //@ pred okNums3(v *Version) = len(v.num) == 3 && 0 <= v.num[0] && v.num[0] < infinity && 0 <= v.num[1] && v.num[1] < infinity && 0 <= v.num[2] && v.num[2] < infinity
 
 // setNum writes number i, growing the list with zeros when it is too short: it
@@ -741,6 +750,10 @@ package semver
 //@   ensures touches(&v.num, v.num, &v.buf)
 //@   ensures imp(old(okNums3(v)) && old(len(v.pre) == 0), result == nil && samearr(v.num, old(v.num)) && len(v.num) == 3 && cap(v.num) == old(cap(v.num)) &&
 //@           rowis(v.num, old(v.num), 2, old(v.num[2]) + 1))
+//@   ensures imp(old(okNums2(v)) && old(len(v.pre) == 0), result == nil && samearr(v.num, old(v.num)) && len(v.num) == 2 && cap(v.num) == old(cap(v.num)) &&
+//@           rowis(v.num, old(v.num), 1, old(v.num[1]) + 1))
+//@   ensures imp(old(len(v.num) == 1 && 0 <= v.num[0] && v.num[0] < infinity) && old(len(v.pre) == 0), result == nil && samearr(v.num, old(v.num)) && len(v.num) == 1 &&
+//@           cap(v.num) == old(cap(v.num)) && rowis(v.num, old(v.num), 0, old(v.num[0]) + 1))
 //@   loop 1
 //@     invariant touches(&v.num, old(v.num), &v.buf) && (samearr(v.num, old(v.num)) || fresh(v.num) || backed(v.num, &v.buf))
 //@   property C03
@@ -764,7 +777,6 @@ package semver
 //@ pred bounds(sp span, loOpen bool, hiOpen bool) = sp.minOpen == loOpen && sp.maxOpen == hiOpen && sp.min != nil && sp.max != nil
 
 // Two-number (partial) versions: M.m stands for M.m.x.
-//@ pred okNums2(v *Version) = len(v.num) == 2 && 0 <= v.num[0] && v.num[0] < infinity && 0 <= v.num[1] && v.num[1] < infinity
 //@ pred simple2(v *Version) = v != nil && v.ext == nil && okNums2(v) && backed(v.num, &v.buf) && len(v.pre) == 0 &&
 //@      (v.sys == NPM || v.sys == Cargo || v.sys == DefaultSystem)
 //@ pred numsG(v *Version, a value, b value, c value) = v != nil && 1 <= len(v.num) && len(v.num) <= 3 && v.getNum(0) == a && v.getNum(1) == b && v.getNum(2) == c
@@ -783,6 +795,10 @@ package semver
 //@           nums3(result0.min, 0, 0, 0) && len(result0.min.pre) == 1 && numsG(result0.max, old(lo.num[0]), old(lo.num[1]), 0) && len(result0.max.pre) == 0)
 //@   ensures imp(typ == tokLessEqual, result1 == nil && result0.rank == vector && bounds(result0, false, false) &&
 //@           nums3(result0.min, 0, 0, 0) && len(result0.min.pre) == 1 && nums3(result0.max, old(lo.num[0]), old(lo.num[1]), infinity) && len(result0.max.pre) == 0)
+//@   ensures imp(typ == tokGreaterEqual, result1 == nil && result0.rank == vector && bounds(result0, false, false) &&
+//@           numsG(result0.min, old(lo.num[0]), old(lo.num[1]), 0) && len(result0.min.pre) == 0 && nums3(result0.max, infinity, infinity, infinity))
+//@   ensures imp(typ == tokGreater && old(lo.num[1]) + 1 < infinity, result1 == nil && result0.rank == vector && bounds(result0, false, false) &&
+//@           numsG(result0.min, old(lo.num[0]), old(lo.num[1]) + 1, 0) && len(result0.min.pre) == 0 && nums3(result0.max, infinity, infinity, infinity))
 //@   loop 0
 //@     invariant loopframe(hi.num) && forall(k, 0, rangeidx + 1, hi.num[k] == infinity)
 //@   loop 1
@@ -803,6 +819,10 @@ package semver
 //@           nums3(result0.min, 0, 0, 0) && len(result0.min.pre) == 1 && numsG(result0.max, old(lo.num[0]), 0, 0) && len(result0.max.pre) == 0)
 //@   ensures imp(typ == tokLessEqual, result1 == nil && result0.rank == vector && bounds(result0, false, false) &&
 //@           nums3(result0.min, 0, 0, 0) && len(result0.min.pre) == 1 && nums3(result0.max, old(lo.num[0]), infinity, infinity) && len(result0.max.pre) == 0)
+//@   ensures imp(typ == tokGreaterEqual, result1 == nil && result0.rank == vector && bounds(result0, false, false) &&
+//@           numsG(result0.min, old(lo.num[0]), 0, 0) && len(result0.min.pre) == 0 && nums3(result0.max, infinity, infinity, infinity))
+//@   ensures imp(typ == tokGreater && old(lo.num[0]) + 1 < infinity, result1 == nil && result0.rank == vector && bounds(result0, false, false) &&
+//@           numsG(result0.min, old(lo.num[0]) + 1, 0, 0) && len(result0.min.pre) == 0 && nums3(result0.max, infinity, infinity, infinity))
 //@   loop 0
 //@     invariant loopframe(hi.num) && forall(k, 0, rangeidx + 1, hi.num[k] == infinity)
 //@   loop 1
